@@ -70,3 +70,21 @@ package vm_context
 //@ func AccountVmContext.IsBridgeAndLiquiditySporkEnforced(self)
 //@   ensures result == self.bridge
 //@   modifies nothing
+
+// ---- contract inbox cursor and the one-level snapshot used around embedded calls (C04 / C09) ------------------------------------
+//@ func AccountVmContext.SequencerPopFront(self)
+//@   ensures self.seqFront == old(self.seqFront) + 1
+//@   modifies self.seqFront
+
+// Save(): remember the whole account state; Reset(): go back to it; Done(): keep the current state.
+//@ model AccountVmContext hasSnapshot bool   // ghost: Save() has been called and not yet consumed by Reset()
+//@ func AccountVmContext.Save(self)
+//@   ensures self.hasSnapshot
+//@   ensures self.savedBalance == self.balance && self.savedReceived == self.received && self.savedSeqFront == self.seqFront && self.savedChainPlasma == self.chainPlasma && self.savedStorage == self.storageVersion
+//@   modifies self.savedBalance, self.savedReceived, self.savedSeqFront, self.savedChainPlasma, self.savedStorage, self.hasSnapshot
+//@ func AccountVmContext.Reset(self)
+//@   requires[snapshot-taken] self.hasSnapshot
+//@   ensures self.balance == old(self.savedBalance) && self.received == old(self.savedReceived) && self.seqFront == old(self.savedSeqFront) && self.chainPlasma == old(self.savedChainPlasma) && self.storageVersion == old(self.savedStorage)
+//@   modifies self.balance, self.received, self.seqFront, self.chainPlasma, self.storageVersion
+//@ func AccountVmContext.Done(self)
+//@   modifies nothing
